@@ -470,3 +470,159 @@ pub fn describe_spawns(spawns: &[Vec<Vec<u8>>]) -> String {
     }
     s
 }
+
+/// Generic simplifications of an xargs scenario (used by C04, C19, C20).
+pub fn shrink_xargs(sc: &crate::xargs::XargsScenario) -> Vec<crate::xargs::XargsScenario> {
+    use crate::world::Outcome;
+    let mut out = vec![];
+    if sc.env.is_some() || sc.rlimit_stack.is_some() {
+        let mut s = sc.clone();
+        s.env = None;
+        s.rlimit_stack = None;
+        out.push(s);
+    }
+    if !sc.read_plan.is_empty() {
+        let mut s = sc.clone();
+        s.read_plan.clear();
+        out.push(s);
+        if sc.read_plan.len() > 6 {
+            let mut s = sc.clone();
+            s.read_plan.truncate(sc.read_plan.len() / 2);
+            out.push(s);
+            let mut s = sc.clone();
+            s.read_plan.drain(..sc.read_plan.len() / 2);
+            out.push(s);
+        } else {
+            for i in 0..sc.read_plan.len() {
+                let mut s = sc.clone();
+                s.read_plan.remove(i);
+                out.push(s);
+            }
+        }
+    }
+    for i in 0..sc.opts.len() {
+        let mut s = sc.clone();
+        s.opts.remove(i);
+        out.push(s);
+    }
+    // outcomes: truncate, then make single ones succeed
+    if !sc.outcomes.is_empty() {
+        let mut s = sc.clone();
+        s.outcomes.pop();
+        out.push(s);
+        for i in 0..sc.outcomes.len() {
+            if sc.outcomes[i] != Outcome::Exit(0) {
+                let mut s = sc.clone();
+                s.outcomes[i] = Outcome::Exit(0);
+                out.push(s);
+            }
+        }
+    }
+    // initial arguments
+    for i in 1..sc.cmd.len() {
+        let mut s = sc.clone();
+        s.cmd.remove(i);
+        out.push(s);
+    }
+    // input: halves, sixteenths, single bytes
+    let n = sc.input.0.len();
+    let rebase = |s: &mut crate::xargs::XargsScenario, from: usize, removed: usize| {
+        for op in s.read_plan.iter_mut() {
+            if let ReadOp::Cut(p) = op {
+                if *p > from {
+                    *p = p.saturating_sub(removed).max(from);
+                }
+            }
+        }
+    };
+    if n > 1 {
+        for (a, b) in [(0, n / 2), (n / 2, n)] {
+            let mut s = sc.clone();
+            s.input.0.drain(a..b);
+            rebase(&mut s, a, b - a);
+            out.push(s);
+        }
+    }
+    if n > 64 {
+        let step = n / 16;
+        for k in 0..16 {
+            let a = k * step;
+            let b = (a + step).min(n);
+            let mut s = sc.clone();
+            s.input.0.drain(a..b);
+            rebase(&mut s, a, b - a);
+            out.push(s);
+        }
+    } else {
+        for i in 0..n {
+            let mut s = sc.clone();
+            s.input.0.remove(i);
+            rebase(&mut s, i, 1);
+            out.push(s);
+        }
+    }
+    // lower numeric option values
+    for i in 0..sc.opts.len() {
+        use crate::xargs::Opt;
+        let lowered = match &sc.opts[i] {
+            Opt::N(v) if *v > 1 => Some(Opt::N(v - 1)),
+            Opt::L(v) if *v > 1 => Some(Opt::L(v - 1)),
+            _ => None,
+        };
+        if let Some(o) = lowered {
+            let mut s = sc.clone();
+            s.opts[i] = o;
+            out.push(s);
+        }
+    }
+    out
+}
+
+/// Outcome script of `len` entries drawn from the enabled kinds.
+pub fn gen_outcomes(rng: &mut Rng, len: usize, fatal_ok: bool) -> Vec<crate::world::Outcome> {
+    use crate::world::Outcome;
+    // swarm: each run enables a random subset of outcome kinds
+    let w_fail = if rng.chance(3, 4) { 30 } else { 0 };
+    let w_255 = if fatal_ok && rng.chance(1, 2) { 8 } else { 0 };
+    let w_sig = if fatal_ok && rng.chance(1, 2) { 8 } else { 0 };
+    let w_enoent = if fatal_ok && rng.chance(1, 3) { 5 } else { 0 };
+    let w_err = if fatal_ok && rng.chance(1, 3) { 5 } else { 0 };
+    let mut v = vec![];
+    for _ in 0..len {
+        let o = match rng.weighted(&[40, w_fail, w_255, w_sig, w_enoent, w_err]) {
+            0 => Outcome::Exit(0),
+            1 => Outcome::Exit(*rng.pick(&[1, 1, 2, 3, 42, 100, 123, 124, 125])),
+            2 => Outcome::Exit(255),
+            3 => {
+                let s = *rng.pick(&[1, 2, 6, 9, 9, 11, 13, 15, 15, 31, 34, 64]);
+                Outcome::Signal(s, rng.chance(1, 4))
+            }
+            4 => Outcome::SpawnErr(libc::ENOENT),
+            _ => Outcome::SpawnErr(*rng.pick(&[
+                libc::EACCES,
+                libc::ENOEXEC,
+                libc::ENOMEM,
+                libc::EAGAIN,
+                libc::E2BIG,
+                libc::ETXTBSY,
+            ])),
+        };
+        v.push(o);
+    }
+    v
+}
+
+/// A random read plan of any family for inputs of the batch properties.
+pub fn gen_any_plan(rng: &mut Rng, input: &[u8], default_mode: bool, sep: &[u8]) -> Vec<ReadOp> {
+    if rng.chance(1, 3) {
+        return vec![];
+    }
+    let states = if default_mode {
+        Some(default_states(input))
+    } else {
+        None
+    };
+    let fam = pick_family(rng, input.len());
+    let eintr = rng.chance(1, 3);
+    gen_read_plan(rng, input, states.as_deref(), sep, fam, eintr, None)
+}
